@@ -27,7 +27,8 @@ vars == <<l, W, seq, g>>
 (* so that all branches of a scenario converge again at its "end" line.      *)
 
 G0 == [id |-> "", fam |-> "", maxq |-> 16384, defcap |-> 0, gbad |-> <<>>, ifds |-> 0, gor |-> 0, start |-> 0, infra |-> <<>>, events |-> 0,
-       lastobs |-> [nwd |-> -1, npath |-> -1, nmarks |-> -1, paths |-> {}], drift |-> <<>>]
+       lastobs |-> [nwd |-> -1, npath |-> -1, nmarks |-> -1, paths |-> {}], drift |-> <<>>,
+       got |-> <<>>]      \* events received so far (kept only for behaviours generated from the event model, family tlcev)
 
 Init == /\ l = 1 /\ W = EmptyFn /\ seq = 0 /\ g = G0
         /\ TLCSet(1, 1) /\ TLCSet(3, EmptyFn)
@@ -156,11 +157,14 @@ JoinT == /\ IsKind("join")
          /\ UNCHANGED seq /\ Next1
 
 \* ---- consumer --------------------------------------------------------------
+EvsOf(vals) == LET evs == SelectSeq(vals, LAMBDA v : v.t = "ev") IN
+               [i \in 1..Len(evs) |-> [name |-> evs[i].name, op |-> evs[i].op, from |-> evs[i].from]]
 Recv == /\ IsKind("recv")
         /\ IF Line.w \in DOMAIN W
            THEN \E nws \in RecvVal(W[Line.w], Line.ch, Line.val) : W' = [W EXCEPT ![Line.w] = nws]
            ELSE W' = W
-        /\ g' = IF ~Line.q THEN Infra("not quiescent at recv") ELSE [g EXCEPT !.events = @ + 1]
+        /\ g' = IF ~Line.q THEN Infra("not quiescent at recv")
+                ELSE [g EXCEPT !.events = @ + 1, !.got = IF g.fam = "tlcev" THEN @ \o EvsOf(<<Line.val>>) ELSE @]
         /\ UNCHANGED seq /\ Next1
 
 DrainEnd(w1, d) ==
@@ -179,7 +183,8 @@ Drain == /\ IsKind("drain")
          /\ IF Line.w \in DOMAIN W
             THEN \E nws \in DrainW(W[Line.w], Line) : W' = [W EXCEPT ![Line.w] = nws]
             ELSE W' = W
-         /\ g' = IF Line.end \in {"unquiet", "max"} THEN Infra("drain ended " \o Line.end) ELSE [g EXCEPT !.events = @ + Len(Line.vals)]
+         /\ g' = IF Line.end \in {"unquiet", "max"} THEN Infra("drain ended " \o Line.end)
+                 ELSE [g EXCEPT !.events = @ + Len(Line.vals), !.got = IF g.fam = "tlcev" THEN @ \o EvsOf(Line.vals) ELSE @]
          /\ UNCHANGED seq /\ Next1
 
 \* ---- observation -------------------------------------------------------------
@@ -217,6 +222,14 @@ Model == /\ IsKind("model")
                  IF same THEN g ELSE [g EXCEPT !.drift = Append(@, [model |-> [nwd |-> Line.nwd, npath |-> Line.npath, nmarks |-> Line.nmarks], observed |-> [nwd |-> o.nwd, npath |-> o.npath, nmarks |-> o.nmarks]])]
          /\ UNCHANGED <<W, seq>> /\ Next1
 
+\* ... and what the event model (InotifyEvents, via MC_EventsGen) says the user receives for this history: its own small
+\* kernel and its transcription of handleEvent/newEvent.  A difference is MODEL-DRIFT (the verdict on the properties
+\* comes, as always, from the shadow instance and Ideal).
+Evmodel == /\ IsKind("evmodel")
+           /\ g' = LET want == [i \in 1..Len(Line.want) |-> [name |-> Line.want[i].name, op |-> Line.want[i].op, from |-> Line.want[i].from]] IN
+                   IF want = g.got THEN g ELSE [g EXCEPT !.drift = Append(@, [model |-> want, observed |-> g.got])]
+           /\ UNCHANGED <<W, seq>> /\ Next1
+
 \* ---- the worker process died inside this scenario ---------------------------
 Crash == /\ IsKind("crash")
          /\ g' = GBad({"*"}, "crash:" \o Line.cls)
@@ -231,7 +244,7 @@ Other == /\ l <= Len(Trace) /\ Line.k \in {"recurse", "bad", "chdir"}
          /\ g' = IF Line.k = "bad" THEN Infra("bad step") ELSE g
          /\ UNCHANGED <<W, seq>> /\ Next1
 
-Next == (Reset \/ End \/ New \/ Fs \/ Call \/ JoinT \/ Recv \/ Drain \/ Obs \/ Model \/ Fault \/ Crash \/ Other)
+Next == (Reset \/ End \/ New \/ Fs \/ Call \/ JoinT \/ Recv \/ Drain \/ Obs \/ Model \/ Evmodel \/ Fault \/ Crash \/ Other)
         /\ TLCSet(1, IF TLCGet(1) > l' THEN TLCGet(1) ELSE l')
 
 Spec == Init /\ [][Next]_vars
